@@ -91,6 +91,7 @@ pub const SHAPES: &[&str] = &[
     "nest-noselector", "nest-selector", "nest-nth-of-type", "stray-end-tags", "long-tag-name", "long-comment", "long-attr", "long-text",
     "many-attrs", "many-selectors", "deep-not-selector", "nest-close-all", "many-text-nodes-sjis",
     "deep-not-selector-after-escaped-dquote", "deep-not-selector-after-escaped-squote", "deep-not-selector-after-escaped-ident", "deep-not-selector-in-list",
+    "deep-not-selector-after-quote-in-comment", "deep-not-selector-after-bad-string",
     "many-selectors-distinct", "big-insert-legacy", "big-insert-utf8", "big-streaming-insert-legacy", "big-attr-value-set",
 ];
 
@@ -147,6 +148,8 @@ pub fn shape_child(shape: &str, n: usize) -> i32 {
                 "deep-not-selector-after-escaped-squote" => "[title='it\\'s']",
                 "deep-not-selector-after-escaped-ident" => "a\\(b",
                 "deep-not-selector-in-list" => "b, [k=\")\"]",
+                "deep-not-selector-after-quote-in-comment" => "a/*\"*/",
+                "deep-not-selector-after-bad-string" => "a[k=\"x\n],b",
                 _ => "",
             };
             let sel = format!("{prefix}{}a{}", ":not(".repeat(depth), ")".repeat(depth));
@@ -358,6 +361,27 @@ pub fn run_check(ctx: &Ctx) -> i32 {
         }
     });
     ctx.level_done(&format!("(b) every selector string over {} CSS tokens, len<={smax}: parse (+ rewrite when accepted)", CSS.len()));
+    // (b') a wider token menu (pseudo-elements, functional pseudo-classes the parser knows but the
+    // library rejects, sibling combinators, namespaces, comments, quotes, escapes), shorter strings
+    const CSS2: &[&str] = &[
+        "a", "*", ".c", "[k]", ":not(", ")", "::before", "::after", ":hover", ":is(", ":where(", ":has(", "::slotted(", ":host(", "::part(", "+", "~", "|", "*|", "/*", "*/", "\"", "'",
+        "\\", ",", " ", ">", ":nth-child(", "2n+1", "of", ":first-child", "!", "@", "\n",
+    ];
+    let smax2 = if quick { 3 } else { 4 };
+    let n2 = count_upto(CSS2.len(), smax2);
+    par_for(n2, 64, |i| {
+        let mut idx = vec![];
+        seq_at(i, CSS2.len(), &mut idx);
+        let sel: String = idx.iter().map(|&j| CSS2[j]).collect();
+        ctx.exec(1);
+        ctx.validated(1);
+        if let Some(msg) = check_selector(&sel) {
+            let case = json!({"kind": "selector", "selector": sel});
+            let c2 = case.clone();
+            ctx.violation(msg, case, &|| replay(&c2));
+        }
+    });
+    ctx.level_done(&format!("(b') every selector string over a wider menu of {} CSS tokens (pseudo-elements, :is/:where/:has/::slotted/:host, sibling combinators, namespaces, comments, quotes, escapes), len<={smax2}", CSS2.len()));
     // (c) setters
     let sig = SIGMA.len();
     let n = count_upto(sig, 3);
